@@ -15,11 +15,12 @@
      leaf_ok  what is assumed of a leaf: maps F^n into its declared range; a Functional has
               the field as range; a leaf FLAGGED linear is linear (homogeneity is the premise
               that the A*a -> a*A rewrite needs; nothing is assumed of nonlinear leaves)
-     variant  switches for the two recorded findings that touch the model (variant_current =
-              what /repo does now, measured by the harness on every run; variant_repaired =
-              after the proposed fixes).  Value/type theorems hold for EVERY variant.       *)
+     variant  [variant_live] = what /repo does (the correspondence requires it of the running
+              code); [variant_old] = the behaviour before the fixes 7ebf769 / c9dadbb, kept so
+              that the old defects stay expressible.  Lemmas hold for EVERY variant; the
+              property theorems flag_complete / well_typed_evaluates are stated at the live one. *)
 From Coq Require Import ZArith QArith Reals List Bool Ring.
-From Verif Require Import Base.Num Base.Vec C04.Model C04.ModelIP C04.ModelMem C04.Cplx Gen.OpTables C04.Tables C04.Proofs C04.ProofsIP C04.ProofsMem C04.Instances C04.Refuted.
+From Verif Require Import Base.Num Base.Vec C04.Model C04.ModelIP C04.ModelMem C04.Cplx Gen.OpTables C04.Tables C04.Dispatch Gen.OpDispatch C04.DispatchModel C04.DispatchProofs C04.Proofs C04.ProofsIP C04.ProofsMem C04.Instances C04.Refuted.
 Import ListNotations.
 
 (* T1 (core).  Over ANY commutative ring carried by the Num class (covers R, C, Qc): for every
@@ -88,14 +89,23 @@ Theorem flag_sound : forall (T : Type) (N : Num T),
 Proof. exact @Proofs.flag_sound. Qed.
 Print Assumptions flag_sound.
 
-(* Flags, completeness: "the linearity flag of the result is the one implied by the expression"
-   ([slin]: sums/compositions of linear operands, scalar and vector multiples of a linear
-   operand are linear).  FULL STATEMENT (false, see flag_complete_refuted):
-       forall s o, sleaves_ok s -> build variant_current s = Ok o -> slin s = true ->
-                   olin variant_current o = true.
-   For the code as it is now it holds for every expression that contains no `A * v` with a
-   scalar-valued A (flag_complete_partial); for the repaired FunctionalRightVectorMult it holds
-   in full (flag_complete_repaired): *)
+(* T1 (flags, completeness): "the linearity flag of the result is the one implied by the
+   expression" ([slin]: sums/compositions of linear operands, scalar and vector multiples of a
+   linear operand are linear).  UNCONDITIONAL for the code as it is now, every tree: *)
+Theorem flag_complete : forall (T : Type) (N : Num T),
+  ring_theory nzero none_ nadd nmul nsub nopp (@eq T) ->
+  (forall u c : T, ndiv u c = nmul (ndiv none_ c) u) ->
+  (forall a b : T, neqb a b = true -> a = b) ->
+  (forall a : T, neqb a a = true) ->
+  forall (s : sexpr T) (o : oexpr T), sleaves_ok s -> build variant_live s = Ok o ->
+    slin s = true -> olin variant_live o = true.
+Proof.
+  exact (fun T N Rth Hdiv Heqb Hrefl =>
+           @Proofs.flag_complete_repaired T N Rth Hdiv Heqb Hrefl variant_live eq_refl).
+Qed.
+Print Assumptions flag_complete.
+
+(* the same for any variant, as long as no `A * v` with a scalar-valued A occurs *)
 Theorem flag_complete_partial : forall (T : Type) (N : Num T),
   ring_theory nzero none_ nadd nmul nsub nopp (@eq T) ->
   (forall u c : T, ndiv u c = nmul (ndiv none_ c) u) ->
@@ -106,35 +116,21 @@ Theorem flag_complete_partial : forall (T : Type) (N : Num T),
 Proof. exact @Proofs.flag_complete_partial. Qed.
 Print Assumptions flag_complete_partial.
 
-Theorem flag_complete_repaired : forall (T : Type) (N : Num T),
-  ring_theory nzero none_ nadd nmul nsub nopp (@eq T) ->
-  (forall u c : T, ndiv u c = nmul (ndiv none_ c) u) ->
-  (forall a b : T, neqb a b = true -> a = b) ->
-  (forall a : T, neqb a a = true) ->
-  forall (vt : variant), v_frvec_lin vt = true ->
-  forall (s : sexpr T) (o : oexpr T), sleaves_ok s -> build vt s = Ok o ->
-    slin s = true -> olin vt o = true.
-Proof. exact @Proofs.flag_complete_repaired. Qed.
-Print Assumptions flag_complete_repaired.
-
-(* ... and is refuted by  f * v  for a linear Functional f (FunctionalRightVectorMult drops the
-   flag; recorded finding, probe key flag-FunctionalRightVectorMult-drops-linear). *)
-Theorem flag_complete_refuted :
+(* What the two repaired defects were, as statements about the explicit OLD variant:
+   before 7ebf769, f * v for a linear Functional f dropped the flag ... *)
+Theorem flag_complete_old_variant_refuted :
   exists (s : sexpr R) (o : oexpr R),
-    sleaves_ok s /\ build variant_current s = Ok o /\ slin s = true /\ olin variant_current o = false.
+    sleaves_ok s /\ build variant_old s = Ok o /\ slin s = true /\ olin variant_old o = false.
 Proof. exact flag_complete_refuted_R. Qed.
 
-(* `A + a` for a field-valued operator A that is not a Functional is documented by
-   Operator.__add__ ("other in self.range") but rejected by OperatorVectorSum.__init__
-   (recorded finding, probe key add-scalar-to-field-valued-operator-raises). *)
-Theorem add_scalar_field_range_rejected :
-  build variant_current (SAddC (SLeaf (LIP 0 [1%R])) 1%R) = Err TypeErr.
+(* ... and before c9dadbb, `A + a` for a field-valued operator A that is not a Functional
+   (documented by Operator.__add__) was rejected by OperatorVectorSum.__init__; it is accepted
+   now (instance of well_typed_evaluates; the built object shown for the reader). *)
+Theorem add_scalar_field_range_old_variant_rejected :
+  build variant_old (SAddC (SLeaf (LIP 0 [1%R])) 1%R) = Err TypeErr.
 Proof. exact add_scalar_field_range_rejected_R. Qed.
-
-(* ... while the repaired OperatorVectorSum accepts it with the table value (instance of
-   build_sound at variant_repaired; shown here so that the accepted form is visible). *)
-Example add_scalar_field_range_repaired :
-  build variant_repaired (SAddC (SLeaf (LIP 0 [1%R])) 1%R) = Ok (OVecSum (OLeaf (LIP 0 [1%R])) [1%R]).
+Example add_scalar_field_range_accepted :
+  build variant_live (SAddC (SLeaf (LIP 0 [1%R])) 1%R) = Ok (OVecSum (OLeaf (LIP 0 [1%R])) [1%R]).
 Proof. reflexivity. Qed.
 
 (* T1 (acceptance).  [wt] = well-typed by the documented rules of the overloads (ranges/domains
@@ -153,13 +149,27 @@ Theorem build_func : forall (T : Type) (N : Num T) (vt : variant) (s : sexpr T) 
 Proof. exact @Proofs.build_func. Qed.
 Print Assumptions build_func.
 
-(* THE PROPERTY IN ONE STATEMENT.  Every well-typed expression of any depth is accepted, the
-   built object has the implied domain/range/kind, and it evaluates out-of-place and in-place
-   to the table value at every point.  [scalar_add_ok vt s] excludes, for the CURRENT code only,
-   `A + a` on a field-valued operator A that is not a Functional (recorded finding
-   add-scalar-to-field-valued-operator-raises, see add_scalar_field_range_rejected); it is
-   vacuous for the repaired OperatorVectorSum (next theorem). *)
+(* THE PROPERTY IN ONE STATEMENT, for the code as it is now.  Every expression of any depth
+   that is well-typed by the documented rules is accepted, the built object has the implied
+   domain / range / kind, and it evaluates out-of-place and in-place to the table value at
+   every point.  No side condition. *)
 Theorem well_typed_evaluates : forall (T : Type) (N : Num T),
+  ring_theory nzero none_ nadd nmul nsub nopp (@eq T) ->
+  (forall u c : T, ndiv u c = nmul (ndiv none_ c) u) ->
+  (forall a b : T, neqb a b = true -> a = b) ->
+  forall (s : sexpr T), sleaves_ok s -> wt s = true ->
+  exists o : oexpr T, build variant_live s = Ok o /\ odom o = sdom s /\ oran o = sran s /\ ofunc o = sfunc s /\
+    forall x : list T, length x = dim (sdom s) -> eval o x = denote s x /\ eval_ip o x = denote s x.
+Proof.
+  exact (fun T N Rth Hdiv Heqb s L W =>
+           @Proofs.well_typed_evaluates T N Rth Hdiv Heqb variant_live s L W
+             (scalar_add_ok_of_variant variant_live s eq_refl)).
+Qed.
+Print Assumptions well_typed_evaluates.
+
+(* the general form: any variant; [scalar_add_ok vt s] excludes, for the OLD variant only,
+   `A + a` on a field-valued operator A that is not a Functional *)
+Theorem well_typed_evaluates_any_variant : forall (T : Type) (N : Num T),
   ring_theory nzero none_ nadd nmul nsub nopp (@eq T) ->
   (forall u c : T, ndiv u c = nmul (ndiv none_ c) u) ->
   (forall a b : T, neqb a b = true -> a = b) ->
@@ -167,21 +177,7 @@ Theorem well_typed_evaluates : forall (T : Type) (N : Num T),
   exists o : oexpr T, build vt s = Ok o /\ odom o = sdom s /\ oran o = sran s /\ ofunc o = sfunc s /\
     forall x : list T, length x = dim (sdom s) -> eval o x = denote s x /\ eval_ip o x = denote s x.
 Proof. exact @Proofs.well_typed_evaluates. Qed.
-Print Assumptions well_typed_evaluates.
-
-Theorem well_typed_evaluates_repaired : forall (T : Type) (N : Num T),
-  ring_theory nzero none_ nadd nmul nsub nopp (@eq T) ->
-  (forall u c : T, ndiv u c = nmul (ndiv none_ c) u) ->
-  (forall a b : T, neqb a b = true -> a = b) ->
-  forall (vt : variant), v_vecsum_field vt = true ->
-  forall (s : sexpr T), sleaves_ok s -> wt s = true ->
-  exists o : oexpr T, build vt s = Ok o /\ odom o = sdom s /\ oran o = sran s /\ ofunc o = sfunc s /\
-    forall x : list T, length x = dim (sdom s) -> eval o x = denote s x /\ eval_ip o x = denote s x.
-Proof.
-  exact (fun T N Rth Hdiv Heqb vt V s L W =>
-           @Proofs.well_typed_evaluates T N Rth Hdiv Heqb vt s L W (scalar_add_ok_of_variant vt s V)).
-Qed.
-Print Assumptions well_typed_evaluates_repaired.
+Print Assumptions well_typed_evaluates_any_variant.
 
 (* non-vacuity at the executable instance: the interaction patterns named in the property are
    well-typed, accepted, and built as the expected classes (kernel-evaluated at Q) *)
@@ -189,14 +185,14 @@ Example patterns_accepted :
   let A := SLeaf (LSq 0 2 [0%Q; 0%Q]) in           (* nonlinear *)
   let B := SLeaf (LMat 1 2 [[1%Q; 2%Q]; [0%Q; 1%Q]]) in (* linear *)
   let two := 2%Q in let three := 3%Q in
-  wt (SMul (SMulC A two) B) = true                                       (* (A*a)*B *)
-  /\ build variant_current (SMul (SMulC A two) B)
+  wt (SMul (SMulC A two true) B) = true                                       (* (A*a)*B *)
+  /\ build variant_live (SMul (SMulC A two true) B)
      = Ok (OComp false (ORScal false (OLeaf (LSq 0 2 [0%Q; 0%Q])) two) (OLeaf (LMat 1 2 [[1%Q; 2%Q]; [0%Q; 1%Q]])))
-  /\ build variant_current (SMulC (SMulC A two) three)                   (* (A*a)*b merges *)
+  /\ build variant_live (SMulC (SMulC A two true) three true)                   (* (A*a)*b merges *)
      = Ok (ORScal false (OLeaf (LSq 0 2 [0%Q; 0%Q])) 6%Q)
-  /\ build variant_current (SMulC B two)                                 (* linear shortcut *)
+  /\ build variant_live (SMulC B two true)                                 (* linear shortcut *)
      = Ok (OLScal false (OLeaf (LMat 1 2 [[1%Q; 2%Q]; [0%Q; 1%Q]])) two)
-  /\ build variant_current (SCMul three (SCMul two A))                   (* b*(a*A) merges *)
+  /\ build variant_live (SCMul three (SCMul two A))                   (* b*(a*A) merges *)
      = Ok (OLScal false (OLeaf (LSq 0 2 [0%Q; 0%Q])) 6%Q).
 Proof. vm_compute. repeat split; reflexivity. Qed.
 
@@ -289,3 +285,27 @@ Example contract_propagation : forall (T : Type) (kon : nat -> lcontract) (a b :
   /\ ofresh kon (OComp fn a b) = (ofresh kon a || ofresh kon b)%bool
   /\ ofresh kon (OLVec a v) = true /\ ofresh kon (OSum fn a b) = true /\ ofresh kon (OVecSum a v) = true.
 Proof. intros. repeat split; reflexivity. Qed.
+
+(* Tie by REGENERATION, dispatch.  Gen/OpDispatch.v is re-emitted on every run from the BODIES of
+   Operator.__add__/__radd__/__sub__/__rsub__/__mul__/__matmul__/__rmul__/__rmatmul__/__pow__/
+   __truediv__/__neg__, OperatorRightScalarMult.__mul__ and Functional.__mul__/__rmul__/__add__/
+   __sub__ (+ `__radd__ = __add__`) as decision trees over isinstance / membership / is_linear /
+   == 0 tests, together with the MRO owner of each dunder for the 17 expression classes.
+   [build_tab] interprets those trees (C04/Dispatch.v fixes the meaning of each test and of each
+   returned expression; C04/DispatchModel.v how Python picks the method).  The hand-written
+   [build], about which every theorem above speaks, IS that interpretation -- for every source
+   expression: a changed dispatch (other side, dropped / reordered branch, other class) breaks
+   this proof, not only the correspondence. *)
+Theorem build_follows_source_dispatch : forall (T : Type) (N : Num T) (vt : variant),
+  ring_theory nzero none_ nadd nmul nsub nopp (@eq T) ->
+  (forall u c : T, ndiv u c = nmul (ndiv none_ c) u) ->
+  (forall a b : T, neqb a b = true -> a = b) ->
+  v_real_shortcut vt = real_shortcut_of_table ->
+  forall s : sexpr T, sleaves_ok s -> build vt s = build_tab vt s.
+Proof. exact (fun T N vt Rth Hdiv Heqb Hrs => @DispatchProofs.build_eq_tab T N vt Hrs Rth Hdiv Heqb). Qed.
+Print Assumptions build_follows_source_dispatch.
+
+(* `@` is `*`: the regenerated __matmul__ / __rmatmul__ trees just delegate *)
+Theorem matmul_is_mul : forall (T : Type) (N : Num T) (vt : variant) (a : oexpr T) (other : operand),
+  py_matmul vt a other = py_mul vt a other /\ py_rmatmul vt a other = py_rmul vt a other.
+Proof. intros; split; reflexivity. Qed.
